@@ -1076,6 +1076,9 @@ unaryexpr(struct scope *s)
 			error(&tok.loc, "operand of unary '+' operator must have arithmetic type");
 		if (e->type->prop & PROPINT)
 			e = exprpromote(e);
+		/* the result is a value, not the operand itself: not an lvalue, bit-field or qualified */
+		if (e->lvalue || e->kind == EXPRBITFIELD)
+			e = mkexpr(EXPRCAST, e->type, e);
 		break;
 	case TSUB:
 		next();
